@@ -664,6 +664,9 @@ pub fn run(rep: &mut Report, s: &Search, cfg: RoundsCfg) -> RoundsStats {
         st.wall_s,
         st.cap_hit.as_ref().map(|c| format!(" CAPPED: {}", c)).unwrap_or_default()
     );
+    if std::env::var("HSV_DEBUG").is_ok() {
+        eprintln!("debug: rebuilds={} replay_steps={} t_take={}ms t_apply={}ms", s.rebuilds.load(Ordering::Relaxed), s.replay_steps.load(Ordering::Relaxed), s.t_take.load(Ordering::Relaxed) / 1000, s.t_apply.load(Ordering::Relaxed) / 1000);
+    }
     rep.add("states", st.states as u64);
     rep.add("transitions", s.transitions.load(Ordering::Relaxed));
     rep.add("real_node_steps", s.real_steps.load(Ordering::Relaxed));
@@ -697,14 +700,15 @@ pub fn run_c01(rep: &mut Report, tier: Tier) {
             max_steps: 2 * max_round as usize,
             max_dev: dev,
             max_states: tier.pick(300_000, 8_000_000),
-            wall_cap_s: tier.pick(20.0, 240.0),
+            // a run with a larger deviation bound reaches its counterexamples at shallower levels, so
+            // every bound is run even if a smaller one was capped; the largest gets the largest budget
+            wall_cap_s: tier.pick(20.0, if dev >= 2 { 360.0 } else { 180.0 }),
         };
         let search = new_search(&mk(max_dev));
         for dev in 0..=max_dev {
             let st = run(rep, &search, mk(dev));
             if !st.completed {
                 rep.set("exhaustive", json!(false));
-                break; // a larger deviation bound cannot complete either
             }
         }
     }
